@@ -22,6 +22,10 @@ type LocalStore struct {
 	workdir  string
 	manifest *manifest.Manager
 	stateMu  sync.Mutex
+	// savedID/savedTS are the counters of the newest checkpoint written by this
+	// store (guarded by stateMu); checkpoints never move backwards.
+	savedID uint64
+	savedTS uint64
 }
 
 // OpenLocalStore opens a file-backed PD storage in workdir.
@@ -88,6 +92,11 @@ func (s *LocalStore) SaveAllocatorState(idCurrent, tsCurrent uint64) error {
 	s.stateMu.Lock()
 	defer s.stateMu.Unlock()
 
+	// Callers read the counters before they get here, so two concurrent
+	// requests can arrive out of order: never replace a checkpoint by an older one.
+	idCurrent = max(idCurrent, s.savedID)
+	tsCurrent = max(tsCurrent, s.savedTS)
+
 	payload, err := json.Marshal(AllocatorState{
 		IDCurrent: idCurrent,
 		TSCurrent: tsCurrent,
@@ -101,7 +110,11 @@ func (s *LocalStore) SaveAllocatorState(idCurrent, tsCurrent uint64) error {
 	if err := s.fs.WriteFile(tmp, payload, 0o644); err != nil {
 		return err
 	}
-	return s.fs.Rename(tmp, path)
+	if err := s.fs.Rename(tmp, path); err != nil {
+		return err
+	}
+	s.savedID, s.savedTS = idCurrent, tsCurrent
+	return nil
 }
 
 // Close closes the underlying manifest manager.
